@@ -50,7 +50,14 @@ TIME_SHAPE = re.compile(r"([0-9]{2}):([0-9]{2}):([0-9]{2})(?:\.([0-9]{3}|[0-9]{6
 TIME_LENIENT = re.compile(r"T?[0-9]{2}[0-9:.,TZ+-]*\Z")
 YEAR_SHAPE = re.compile(r"([0-9]{4})\Z")
 DATE_SHAPE = re.compile(r"([0-9]{4})-([0-9]{2})-([0-9]{2})\Z")
-DATE_LENIENT = re.compile(r"[0-9][0-9-]*\Z")
+# unpadded Y-M-D, short/compact all-digit forms: unspecified parser tolerance.  Everything else that is not a year or
+# a calendar date - ISO WEEK dates (2021-W05-3), ORDINAL dates (2021-045), year-month, trailing pieces - is malformed
+DATE_LENIENT = re.compile(r"(?:[0-9]{1,8}|[0-9]{1,4}-[0-9]{1,2}-[0-9]{1,2})\Z")
+# A fourth colon-separated group ("12:00:00:00") is not an ISO time; CPython >= 3.11 time.fromisoformat tolerates it and so
+# does the library today.  Whether that is a finding is the coordinator's call (notes/C02.md): True turns it into a
+# reported violation under the stable key C02:accepted:timeRule:extra-colon-group.
+TIME_EXTRA_GROUP_IS_MALFORMED = False
+TIME_EXTRA_GROUP = re.compile(r"T?[0-9]{2}:[0-9]{2}:[0-9]{2}:[0-9:.,]*\Z")
 URI_CANON = re.compile(r"(?:http|https|ftp)://[a-z0-9](?:[a-z0-9.-]*[a-z0-9])?(?::[0-9]{1,5})?"
                        r"(?:/[A-Za-z0-9._~/-]*)?(?:\?[A-Za-z0-9._~=&-]*)?(?:#[A-Za-z0-9._~-]*)?\Z")
 SCHEME = re.compile(r"([A-Za-z][A-Za-z0-9+.-]*):")
@@ -145,6 +152,10 @@ def classify(kind, s):
             if hh < 24 and mm < 60 and ss < 60:
                 return ACCEPT, "canonical"
             return REJECT, "out-of-range"
+        if TIME_EXTRA_GROUP.match(s):
+            return (REJECT if TIME_EXTRA_GROUP_IS_MALFORMED else LENIENT), "extra-colon-group"
+        if re.search(r"[0-9]-?W[0-9]|^[0-9]{4}-[0-9]{2,3}", s):
+            return REJECT, "malformed"          # dates (calendar, week, ordinal) are not times
         if TIME_LENIENT.match(normalise(s)):
             return LENIENT, "lenient"
         return REJECT, "malformed"
@@ -275,7 +286,9 @@ def time_pool(rng, n_random):
     return (["00:00:00", "12:00:00", "23:59:59", "12:34:56", "12:34:56.789", "12:34:56.789012", "00:00:00.000", "09:05:01"] +
             ["24:00:00", "25:00:00", "12:60:00", "12:00:60", "99:99:99", "23:59:61.000"] +
             ["", "abc", "12-00-00", "1:2:3", "12:0:00", ":::", "12:00:00 PM", "noon", "12.00.00", "12:00:00.", "12:00:00.x", "2021-01-05",
-             "12:00:00:00", "-12:00:00", "12h00", "\ud800", "12:00:00\n"] +
+             "-12:00:00", "12h00", "\ud800", "12:00:00\n", "2021-W05-3", "2021-045", "2021-01-05", "12:00:00 UTC", "12:00:00+1", "1200Z PM",
+             "PT12H", "12:00:00/13:00:00", "12:00:00.5.5", "12::00", "24:00:00.000", "12:00:60.5"] +
+            ["12:00:00:00", "12:00:00:99", "12:00:00:123456"] +
             ["12:00", "12", "1200", "120000", "T12:00:00", "12:00:00Z", "12:00:00+01:00", "12:00:00-0500", "12:00:00.1", "12:00:00.12",
              "12:00:00.1234567", "12:00:00,5", " 12:00:00", "12:00:00 ", "\u0661\u0662:\u0660\u0660:\u0660\u0660", "2500"] +
             ["%02d:%02d:%02d" % (rng.randrange(0, 30), rng.randrange(0, 70), rng.randrange(0, 70)) for _ in range(n_random)])
@@ -285,7 +298,9 @@ def date_pool(rng, n_random):
     return (["2021", "0001", "9999", "1999", "2021-01-05", "2020-02-29", "2000-02-29", "1999-12-31", "0001-01-01", "9999-12-31", "2024-02-29"] +
             ["2021-02-30", "2021-13-01", "2021-00-10", "2021-01-00", "2021-01-32", "2021-02-29", "1900-02-29", "2100-02-29", "2021-04-31", "2021-99-99"] +
             ["", "abc", "2021/01/05", "2021-01", "2021-01-05T00:00:00", "01-05-2021", "21-01-05x", "2021-01-05-01", "twenty", "2021.01.05",
-             "-2021", "2021-", "--", "2021-1a-05", "12:00:00", "1.5", "\ud800", "2021\n"] +
+             "-2021", "2021-", "--", "2021-1a-05", "12:00:00", "1.5", "\ud800", "2021\n",
+             "2021-W05-3", "2020-W53-7", "2021-W05", "2021W053", "2021-W5-3", "2021-045", "2020-366", "2021-001", "2021-01-05Z", "2021-01-05+01:00",
+             "+2021-01-05", "2021--01-05", "202-1-01-05", "2021-Jan-05", "05 Jan 2021", "2021-01-05 ", "--01-05", "2021-01-05/2021-01-06"] +
             ["2021-1-5", "2021-01-5", "0000", "0000-01-01", "99", "999", "20210105", " 2021", "2021 ", "\u0662\u0660\u0662\u0661", "2_021", "+2021", "12345"] +
             ["%04d-%02d-%02d" % (rng.randrange(1, 3000), rng.randrange(0, 14), rng.randrange(0, 33)) for _ in range(n_random)] +
             ["%04d" % rng.randrange(0, 10000) for _ in range(n_random // 2)])
@@ -390,7 +405,7 @@ class Reused:
 
     def __init__(self, rname, attrs, kidnames):
         from metapype.eml import rule as R
-        from harness import vtrees as VT
+
         self.rule = R.Rule(rname)
         self.node = VT.build_node("x", None, attrs, kidnames)
         self.errs = VT.foreign_entries()
@@ -432,7 +447,10 @@ CONTENT_CLASSES = ("MetapypeRuleError", "StrContentUnicodeError", "ContentExpect
 def run(ctx):
     from metapype.eml import rule as R
     built = ctx.build(extra_targets=["theories/Model/RuleRun.v"])
-    rules = RL.live_rules()
+    live = RL.live_rules()
+    rules = VT.file_rules()             # the statement (classifier, enumerations, skeletons) is computed from the FILE, never from the live table
+    for missing in [k for k in live if k not in rules]:
+        rules[missing] = live[missing]
     mixed_names = (R.RULE_TEXT, R.RULE_ANYNAME, R.RULE_PARA, R.RULE_SUBSCRIPT, R.RULE_SUPERSCRIPT)
     thorough = ctx.tier == "thorough"
     nrand = 120 if thorough else 16
@@ -523,11 +541,37 @@ def run(ctx):
                 meta.append(rep)
                 if content is not None and verdict != LENIENT:
                     ctx.sample({"rule": rname, "content": content, "class": cls, "expected": verdict, "observed_ff": ff, "observed_codes": codes}, limit=8)
+    # enumerations after rejections: member / non-member / member, judged against the FILE's enumeration (a validator that
+    # edits its own table while rejecting changes later verdicts)
+    for rname, rj in rules.items():
+        if "content_enum" not in rj[2]:
+            continue
+        enum = list(rj[2]["content_enum"])
+        attrs, kids = skeleton(rj)
+        for m in enum:
+            seq = [m, "zz-unlisted", None, m + "x", m]
+            obs = [impl_named_rule(rname, "x", c, attrs, kids) for c in seq]
+            ctx.case(("enum-sequence", rname, m), True)
+            ctx.count("enum_sequences")
+            for c, (ffs, codess) in zip(seq, obs):
+                cc = [x for x in codess if x.startswith(CONTENT_CODES)]
+                want_ok = c is not None and c in enum
+                if want_ok == bool(cc) or ffs.startswith("CRASH"):
+                    ctx.fail(f"C02:history:enum-sequence:{rname}",
+                             f"content {c!r} ({'a member' if want_ok else 'not a member'} of the rule's enumeration in rules.json) got content codes {cc} "
+                             f"in the sequence {seq}",
+                             {"kind": "impl-vs-statement", "rule": rname, "content_enum": enum, "sequence": seq, "observed": obs, "content": c,
+                              "content_rules": rj[2]["content_rules"], "mixed": False, "attributes": attrs, "children": kids})
+    changed = VT.table_diff()
+    if changed:
+        ctx.fail("C02:history:table-mutated", f"content validation changed the live rule table (differs from rules.json): {changed[:5]}",
+                 {"kind": "impl-vs-statement", "rules_changed": changed, "live": {k: live.get(k) for k in changed[:3]},
+                  "file": {k: rules.get(k) for k in changed[:3]}})
     # whole small trees: typed leaves under one root; an earlier node errs, so every later leaf is validated
     # with an error list that is already non-empty (validate.tree shares one list)
     from metapype.eml import validate
     from metapype.model.node import Node
-    from harness import vtrees as VT
+
     typed_names = {}
     for name, rname in R.node_mappings.items():
         rj = rules.get(rname)
@@ -624,6 +668,11 @@ def run(ctx):
         ctx.fail(f"corr:{m['rule']}:{m['class']}", "model and implementation disagree on content validation",
                  {"kind": "broken-correspondence", "theorem": "C02 (model/implementation correspondence)", "case": m,
                   "model": RL.coq_show(ctx, "corr", "run_rncase tb", cases[i])}, concrete=False)
+    changed = VT.table_diff()
+    if changed:
+        ctx.fail("C02:history:table-mutated", f"the live rule table differs from rules.json at the end of the run: {changed[:5]}",
+                 {"kind": "impl-vs-statement", "rules_changed": changed, "live": {k: live.get(k) for k in changed[:3]},
+                  "file": {k: rules.get(k) for k in changed[:3]}})
     bad2, errors2 = RL.coq_compare(ctx, "corrR", "run_rcase (range_ew, range_ns)", rcases, rwants)
     ctx.extra["traces_validated_against_impl"] += (len(rcases) - len(bad2)) if not errors2 else 0
     for name, out in errors2:
